@@ -169,6 +169,11 @@ func (ck *checker) routes(e *jpref.Eq, elem any, class string, cs map[string]any
 	} else if s2, err := jp.NewScript(script.String()); err == nil {
 		c.Cover("route:parsed-text")
 		run("NewScript(String()).Match", func() bool { return s2.Match(elem) })
+		// the same text through the other constructor
+		if f2, err := jp.NewFilter(filter.String()); err == nil {
+			c.Cover("route:parsed-text-newfilter")
+			run("NewFilter(String()) in Get", func() bool { return len(jp.Expr{f2}.Get([]any{elem})) == 1 })
+		}
 	}
 	c.Cover("route:filter-in-get")
 	x := jp.Expr{filter}
